@@ -418,6 +418,13 @@ def gen_zipf(status):
     statics = [x.strip() for x in statics if 'static_assert' not in x and 'static_cast' not in x and 'constexpr' not in x]
     facts['static_or_mutable_objects'] = statics
     facts['only_uniform_dist_static'] = all('uniform_real_distribution' in x for x in statics)
+    # data members (declarations `T name_{...};` / `T name_;` / `T name_ = ...;` at class scope): value semantics means
+    # no pointer, reference, view, iterator or smart-pointer member (a defaulted copy is then a deep copy)
+    members = re.findall(r'^\s*((?:const\s+)?[\w:]+(?:<[^;{}()]*>)?(?:\s*const)?\s*[\*&]*)\s*(\w+_)\s*(?:\{[^;]*\}|=[^;]*)?;', h, re.M)
+    facts['data_members'] = sorted({f'{t.strip()} {n}' for t, n in members})
+    indirect = [m for m in facts['data_members'] if re.search(r'[\*&]|span|string_view|_ptr|reference_wrapper|iterator', m)]
+    facts['indirect_members'] = indirect
+    facts['value_members_only'] = (not indirect) and len(facts['data_members']) >= 8
     c = cxxscan.strip_comments(src)
     facts['ctor_checks'] = len(re.findall(r'if\s*\(\s*max\s*<\s*min\s*\)\s*\{\s*throw', c))
     status['facts']['zipf'] = facts
@@ -427,6 +434,9 @@ def gen_zipf(status):
     body += f'/-- `operator()` of both generator classes is `const` -/\ndef zipfCallConst : Bool := {"true" if facts["operator_call_const"] else "false"}\n'
     body += ('/-- the only static / thread_local / mutable object declared in the classes is the uniform distribution -/\n'
              f'def zipfOnlyDistStatic : Bool := {"true" if facts["only_uniform_dist_static"] else "false"}\n')
+    body += ('/-- every data member of the two classes is held by value (no pointer, reference, view, iterator or smart pointer): '
+             'the defaulted copy / move operations are deep -/\n'
+             f'def zipfValueMembersOnly : Bool := {"true" if facts["value_members_only"] else "false"}\n')
     body += f'/-- number of constructors that reject `max < min` by throwing -/\ndef zipfCtorChecks : Nat := {facts["ctor_checks"]}\n\nend CppUtil.Gen\n'
     return write_if_changed(os.path.join(GEN_DIR, 'Zipf.lean'), body)
 
